@@ -503,3 +503,94 @@ pub fn json_registries() -> Vec<(String, serde_json::Value)> {
     }
     out
 }
+
+/// Programs that exercise scale-info's TYPE IDENTITY (`reggen::tid_key`): the registry interns by the TypeId
+/// of ONE step of `Identity`, so `Vec<Box<T>>` / `Vec<T>`, `Box<Vec<T>>` / `Vec<T>`, `Option<Box<T>>` /
+/// `Option<T>`, `Box<String>` / `String`, `Box<Box<T>>` / `T`, `Foo<Box<X>>` / `Foo<X>` are pairs of distinct
+/// entries with equal content, while `Box<Foo>` / `Foo` and `Vec<T>` / `VecDeque<T>` share one entry.
+/// Used by the derive tier and by C05's case stream (most of these definitions are outside C05's
+/// coincidence-free class: a parameter directly under Box).
+pub fn identity_programs() -> Vec<(String, Program)> {
+    let mut out: Vec<(String, Program)> = vec![];
+    let leaf = strukt(&["i", "Leaf"], &[], vec![f(Some("v"), Src::Prim("u8"))]);
+    let t = || Src::Param(0);
+    // 1. every pair around a type parameter
+    {
+        let fields = vec![
+            f(Some("a"), Src::Vec(bx(t()))),
+            f(Some("b"), Src::Vec(bx(Src::BoxT(bx(t()))))),
+            f(Some("c"), Src::BoxT(bx(Src::Vec(bx(t()))))),
+            f(Some("d"), Src::VecDeque(bx(t()))),
+            f(Some("e"), Src::Opt(bx(t()))),
+            f(Some("f"), Src::Opt(bx(Src::BoxT(bx(t()))))),
+            f(Some("g"), Src::BoxT(bx(Src::BoxT(bx(t()))))),
+            f(Some("h"), Src::BoxT(bx(Src::Prim("str")))),
+            f(Some("i"), Src::Prim("str")),
+            f(Some("j"), Src::BoxT(bx(Src::VecDeque(bx(t()))))),
+            f(Some("k"), Src::Tuple(vec![Src::BoxT(bx(t()))])),
+            f(Some("l"), Src::Tuple(vec![t()])),
+            f(Some("m"), Src::Array(2, bx(Src::BoxT(bx(t()))))),
+            f(Some("n"), Src::Array(2, bx(t()))),
+            f(Some("o"), Src::Cow(bx(Src::BoxT(bx(t()))))),
+            f(Some("p"), Src::Cow(bx(t()))),
+            f(Some("q"), Src::BoxT(bx(t()))),
+            f(Some("r"), t()),
+            f(Some("s"), Src::VecDeque(bx(Src::VecDeque(bx(t()))))),
+            f(Some("t"), Src::Vec(bx(Src::Vec(bx(t()))))),
+        ];
+        let defs = vec![leaf.clone(), strukt(&["i", "Ids"], &[("T", false)], fields)];
+        let roots = vec![
+            Src::App(1, vec![Src::Prim("u16")]),
+            Src::App(1, vec![Src::App(0, vec![])]),
+            Src::App(1, vec![Src::BoxT(bx(Src::App(0, vec![])))]),
+            Src::App(1, vec![Src::Vec(bx(Src::Prim("u8")))]),
+            Src::App(1, vec![Src::Prim("str")]),
+            Src::BoxT(bx(Src::App(1, vec![Src::Prim("u16")]))),
+            Src::VecDeque(bx(Src::BoxT(bx(Src::App(0, vec![]))))),
+            Src::Vec(bx(Src::App(0, vec![]))),
+        ];
+        out.push(("identity-generic".into(), Program { defs, roots }));
+    }
+    // 2. concrete pairs inside prelude types; the same wrapped type reached first through the Box
+    {
+        let l = || Src::App(0, vec![]);
+        let b = |s: Src| Src::BoxT(bx(s));
+        let fields = vec![
+            f(None, Src::BTreeMap(bx(b(l())), bx(Src::Prim("u8")))),
+            f(None, Src::BTreeMap(bx(l()), bx(Src::Prim("u8")))),
+            f(None, Src::Res(bx(b(l())), bx(b(Src::Prim("str"))))),
+            f(None, Src::Res(bx(l()), bx(Src::Prim("str")))),
+            f(None, Src::BTreeSet(bx(b(Src::Prim("u32"))))),
+            f(None, Src::BTreeSet(bx(Src::Prim("u32")))),
+            f(None, Src::Range(bx(b(Src::Prim("u64"))))),
+            f(None, Src::Range(bx(Src::Prim("u64")))),
+            f(None, Src::Compact(bx(b(Src::Prim("u32"))))),
+            f(None, Src::Compact(bx(Src::Prim("u32")))),
+            f(None, b(Src::Vec(bx(l())))),
+            f(None, Src::Vec(bx(l()))),
+            f(None, b(b(l()))),
+            f(None, b(Src::BitVec("u8", true))),
+            f(None, Src::BitVec("u8", true)),
+        ];
+        let defs = vec![leaf.clone(), strukt(&["i", "Concrete"], &[], fields)];
+        out.push(("identity-concrete".into(), Program { defs, roots: vec![b(b(Src::App(1, vec![]))), Src::App(1, vec![]), l()] }));
+    }
+    // 3. recursion with and without the Box in an argument position, an enum
+    {
+        let defs = vec![
+            leaf.clone(),
+            Def { path: p(&["i", "Tree"]), params: vec![("T".into(), false)], docs: vec![],
+                  body: Body::Enum(vec![
+                      ("Tip".into(), 0, vec![f(None, Src::Param(0))], vec![]),
+                      ("Node".into(), 1, vec![f(Some("l"), Src::BoxT(bx(Src::App(1, vec![Src::Param(0)])))),
+                                              f(Some("r"), Src::Opt(bx(Src::BoxT(bx(Src::App(1, vec![Src::Param(0)]))))))], vec![]),
+                      ("Many".into(), 2, vec![f(None, Src::Vec(bx(Src::App(1, vec![Src::Param(0)])))),
+                                              f(None, Src::Opt(bx(Src::App(0, vec![])))),
+                                              f(None, Src::Opt(bx(Src::BoxT(bx(Src::App(0, vec![]))))))], vec![]),
+                  ]) },
+        ];
+        let roots = vec![Src::App(1, vec![Src::Prim("u16")]), Src::App(1, vec![Src::BoxT(bx(Src::Prim("u16")))]), Src::App(1, vec![Src::App(0, vec![])])];
+        out.push(("identity-recursive".into(), Program { defs, roots }));
+    }
+    out
+}
